@@ -379,9 +379,10 @@ def add_history(rng, c):
 def add_style(rng, c):
     """HOW the declaration is written down (the text may not depend on it): D default arguments and default member values
     instead of explicit ones, P parser::option/... instead of parser::group().option, G groups fetched again by name, C one
-    fluent chain of setters, T values set twice, B the public pieces called directly.  With D some values are moved onto the
+    fluent chain of setters, T values set twice, B the public pieces called directly, X rejected setter attempts (metavar(""),
+    short_name("")/("ab")/(another letter), env(another name)) caught and ignored after every declaration.  With D some values are moved onto the
     defaults so that the short forms are really taken"""
-    c["style"] = "".join(l for l in "DPGCTB" if rng.random() < 0.4) or rng.choice("DPGCTB")
+    c["style"] = "".join(l for l in "DPGCTBX" if rng.random() < 0.4) or rng.choice("DPGCTBX")
     if "D" in c["style"]:
         if rng.random() < 0.5:
             c["defname"] = "arguments"
@@ -528,7 +529,7 @@ def small_usage_cases():
         yield dict(app="app", about="", defname="arguments", pos=True, posamt=posamt, hist=hist, posname="args", prior="p", groups=[], opts=rerank(opts))
     # every way of writing the same declaration down (style letters alone and together), on a declaration made of default values,
     # with default_value(bool)/(int), a setter through a kept reference, usage() inside the exception handler, greedy_postionals()
-    for style, tdef in itertools.product(["D", "P", "G", "C", "T", "B", "DP", "DG", "CT", "DPGCTB"], [False, True, 0, 2, -1]):
+    for style, tdef in itertools.product(["D", "P", "G", "C", "T", "B", "X", "DX", "CTX", "DP", "DG", "CT", "DPGCTBX"], [False, True, 0, 2, -1]):
         opts = [dict(kind="o", group=0, name="opt", short="o", descr="", env="OPT_ENV", metavar="ARG", flag=True, rank=None, default="dv", late=False),
                 dict(kind="m", group=1, name="mul", short=None, descr="words", env="", metavar="ARG", flag=True, rank=None, default=["a", "b"], late=False),
                 dict(kind="t", group=1, name="tog", short=None, descr="", env="", metavar="ARG", flag=True, rank=None, default=tdef, late=False),
@@ -675,7 +676,9 @@ class C15(Check):
             "property's quantifier; opt in with VERIF_C15_PENDING_WIDTH=1); half of the usage cases vary HOW the declaration is written "
             "(default arguments/default member values vs explicit ones, parser::option vs group().option, groups fetched again by "
             "name, one fluent setter chain, values set twice, default_value(bool) vs (int), setters through kept references, direct "
-            "calls of base::format/format_*/group::usage whose output must occur in the text), usage() inside the handler of a failed "
+            "calls of base::format/format_*/group::usage whose output must occur in the text, REJECTED setter calls - metavar(\"\"), "
+            "short_name(\"\")/(\"ab\")/(another letter), env(another name) - caught and ignored after every declaration: they must leave "
+            "no trace and must be rejected), usage() inside the handler of a failed "
             "parse, greedy_postionals(); names/metavars/env/defaults/about with {} % $ \\ regex characters, bytes >= 0x80, NUL, "
             "lengths of 64-300 bytes; about a third of the usage cases RE-REQUEST declared "
             "options (same name/kind/group: directly, after other declarations of the same or another group, late) with or without "
